@@ -494,6 +494,26 @@ def rule_builders(ctx):
                           "value stored as configured", "the configured value is rewritten by %s before it is stored: `matches` compares packet fields with the rewritten value, so "
                           "the listed address / port no longer matches itself (and another one does)" % ",".join(extra), ctx.loc(b, blk))
     ctx.floor("R7", "builder push sites in the three filter.rs copies", n, 24)
+    # direction / mode setters assign exactly the documented flags
+    want = {"source_only": {"check_source": True, "check_destination": False}, "destination_only": {"check_source": False, "check_destination": True},
+            "any_port": {"match_any": True}, "new": None}
+    m = 0
+    for crate in ("huginn_net_tcp", "huginn_net_http", "huginn_net_tls"):
+        for b in P.bodies.values():
+            if b.crate != crate or "::filter::" not in b.path or b.kind != "AssocFn" or b.name not in ("source_only", "destination_only", "any_port"):
+                continue
+            got = {}
+            for i, j, s in b.iter_stmts():
+                if s["k"] == "assign" and s["p"]["pr"] and s["r"]["k"] == "use" and "k" in s["r"]["o"]:
+                    names = [x.get("n") for x in s["p"]["pr"] if isinstance(x, dict) and x.get("n")]
+                    v = T.const_value(s["r"]["o"]["k"])[1]
+                    if names and isinstance(v, bool):
+                        got[names[-1]] = v
+            m += 1
+            ty = (b.impl_self or "").split("::")[-1]
+            ctx.check(got == want[b.name], "R7", "%s:%s::%s:flags" % (crate, ty, b.name), "%s sets %s" % (b.name, want[b.name]),
+                      "%s::%s sets %s, documented: %s - the filter keeps looking at the side the caller switched off (or ignores the one asked for)" % (ty, b.name, got, want[b.name]), ctx.loc(b))
+    ctx.floor("R7", "direction / any-port setters", m, 15)
 
 
 def run(ctx):
